@@ -6,7 +6,7 @@ use crate::scalars::ScalarSpec;
 use serde_json::{json, Value};
 
 pub const TLABELS: [&[u8]; 4] = [b"verif-T0", b"verif-T1", b"R1CSExampleGadget", b""];
-pub const ULABELS: [&[u8]; 6] = [
+pub const ULABELS: [&[u8]; 7] = [
     b"ud0",
     b"ud1",
     b"app-data",
@@ -14,14 +14,20 @@ pub const ULABELS: [&[u8]; 6] = [
     // long labels that agree on their first 64 bytes
     b"application/verif/long-label/0123456789abcdef0123456789abcdef/0123456789/alpha",
     b"application/verif/long-label/0123456789abcdef0123456789abcdef/0123456789/beta",
+    // labels that differ only in trailing NUL bytes
+    b"ctx\0",
 ];
-pub const CLABELS: [&[u8]; 5] = [
+pub const CLABELS: [&[u8]; 8] = [
     b"c0",
     b"c1",
     b"shuffle challenge",
     // long labels that agree on their first 64 bytes
     b"gadget/verif/long-challenge-label/0123456789abcdef0123456789abcdef/01234/alpha",
     b"gadget/verif/long-challenge-label/0123456789abcdef0123456789abcdef/01234/beta",
+    // labels that differ only in trailing NUL bytes, and the empty label
+    b"c0\0",
+    b"",
+    b"\0\0",
 ];
 
 #[derive(Clone, Copy, Debug, PartialEq, Eq, Hash, PartialOrd, Ord)]
@@ -343,6 +349,7 @@ struct Fill {
     regs: usize,
     phase2: bool,
     last_commit: Option<(ScalarSpec, ScalarSpec)>,
+    last_constrain: Option<Lc>,
 }
 
 impl Fill {
@@ -596,7 +603,7 @@ pub fn gen_program(ch: &mut Choices, curve: Curve, cfg: &GenCfg) -> Program {
         sim(&flat, &mut will_close);
     }
 
-    let mut f = Fill { ncom: 0, gates: vec![], pending: None, will_close, regs: 0, phase2: false, last_commit: None };
+    let mut f = Fill { ncom: 0, gates: vec![], pending: None, will_close, regs: 0, phase2: false, last_commit: None, last_constrain: None };
     let fill_op = |ch: &mut Choices, f: &mut Fill, k: Kind| -> Op {
         match k {
             Kind::Commit => {
@@ -665,7 +672,26 @@ pub fn gen_program(ch: &mut Choices, curve: Curve, cfg: &GenCfg) -> Program {
                 f.new_gate(false);
                 Op::Mul { left, right }
             }
-            Kind::Constrain => Op::Constrain { lc: gen_lc(ch, f, cfg.max_terms), err: None, base: None },
+            Kind::Constrain => {
+                let mut lc = gen_lc(ch, f, cfg.max_terms);
+                // now and then the previous constraint is restated: word for word, or over the same
+                // variables with other coefficients
+                if let Some(prev) = f.last_constrain.clone() {
+                    match ch.weighted(&[226, 10, 10, 10]) {
+                        1 => lc = prev,
+                        2 => lc = prev.iter().map(|(v, _)| (*v, gen_sc(ch, f, true))).collect(),
+                        3 => {
+                            // the previous row with further terms after it
+                            let mut ext = prev;
+                            ext.extend(lc);
+                            lc = ext;
+                        }
+                        _ => {}
+                    }
+                }
+                f.last_constrain = Some(lc.clone());
+                Op::Constrain { lc, err: None, base: None }
+            }
             Kind::TData => {
                 let l = ch.below(ULABELS.len()) as u8;
                 let n = ch.below(9);
